@@ -115,6 +115,7 @@ structure St where
   qreq : Bool                        -- some quit() stored the flag
   selfQuit : Bool                    -- quit() was called on the loop thread
   quitMark : Option Nat              -- appendOrder.length at the first flag store
+  retMark : Option Nat               -- appendOrder.length when loop() returned (at its last test of the queue)
   uafDtor : Bool                     -- the destructor touched a destroyed loop
   uafUser : Bool                     -- a user call touched a destroyed loop (outside the property)
   wrongThread : Bool                 -- a task body started on a thread other than the loop thread
@@ -147,7 +148,7 @@ def testQuit (s : St) : St :=
 /-- leaving `loop()`: `looping_ = false`, the flag re-armed (if the code does that here) -/
 def leaveLoop (s : St) : St :=
   { s with looping := false, quit := if quitResetAtExit then false else s.quit,
-           phase := .returned, final := false,
+           phase := .returned, final := false, retMark := some s.appendOrder.length,
            out := some (if s.elt then .point "threadFunc:loopReturned" else .returned) }
 
 /-- next action of the task body on top of the loop thread's stack (`lpc`/`stack` not both idle/empty) -/
@@ -185,7 +186,9 @@ def busy (s : St) : Bool := s.lpc != .idle || !s.stack.isEmpty
 def enterLoop (s : St) : St :=
   { s with looping := true, phase := .entered, out := some (.point "loop:entry") }
 
-def stepLoop (s : St) : St :=
+/-- one step of the loop thread; `fd` = what `loop()` does with the functor queue after its `while` (the code's own
+shape is `finalDrain`, see `stepLoop`; the parameter lets the theorems also speak about the other shapes) -/
+def stepLoopFD (fd : FinalDrain) (s : St) : St :=
   match s.phase with
   | .unborn => { s with out := none }
   | .born => { s with alive := true, phase := .pre, out := none }
@@ -221,12 +224,16 @@ def stepLoop (s : St) : St :=
       | t :: r => { s with batch := r, executed := s.executed ++ [t], stack := [s.tbl t], out := some (.exec t) }
       | [] =>
         let s1 := { s with calling := if callingResetAfterRun then false else s.calling }
-        if s.final then leaveLoop s1
+        if s.final then
+          -- `while (queueSize() > 0)`: the test of the queue (under `mutex_`) and what follows it are one step
+          if fd = .untilEmpty && !s.pending.isEmpty then
+            { s1 with calling := true, phase := .preSwap, out := some (.point "doPendingFunctors:beforeSwap") }
+          else leaveLoop s1
         else { s1 with phase := .looptest, out := some (.point "loop:afterFunctors") }
   | .atExit =>
-    if finalDrain then { s with calling := true, final := true, phase := .preSwap,
-                                out := some (.point "doPendingFunctors:beforeSwap") }
-    else leaveLoop s
+    if fd = .none then leaveLoop s
+    else { s with calling := true, final := true, phase := .preSwap,
+                  out := some (.point "doPendingFunctors:beforeSwap") }
   | .returned =>
     if s.elt then
       if clearLocks && s.mtx then { s with out := none }
@@ -235,6 +242,9 @@ def stepLoop (s : St) : St :=
                     out := some .destroyed }
     else { s with out := none }
   | .dead => { s with out := none }
+
+/-- the loop thread's step for the code as it is -/
+def stepLoop (s : St) : St := stepLoopFD finalDrain s
 
 /-! ## every other thread -/
 
@@ -330,6 +340,11 @@ def step (s : St) (k : Nat) : St := if k = s.L then stepLoop s else stepOther s 
 
 def run (s : St) (sched : List Nat) : St := sched.foldl step s
 
+/-- the same transition system with another shape of the drain after the `while` (for the negation witnesses) -/
+def stepFD (fd : FinalDrain) (s : St) (k : Nat) : St := if k = s.L then stepLoopFD fd s else stepOther s k
+
+def runFD (fd : FinalDrain) (s : St) (sched : List Nat) : St := sched.foldl (stepFD fd) s
+
 /-! ## who can move -/
 
 def loopEnabled (s : St) : Bool :=
@@ -370,7 +385,7 @@ def init (elt wakeLast : Bool) (tbl : TaskId → List Sub) (pre : List Sub) (pro
     phase := if elt then .unborn else .pre, lpc := .idle, stack := if pre.isEmpty then [] else [pre],
     active := [], batch := [], final := false,
     thr := fun k => { pc := .idle, prog := progs k },
-    appendOrder := [], executed := [], qreq := false, selfQuit := false, quitMark := none,
+    appendOrder := [], executed := [], qreq := false, selfQuit := false, quitMark := none, retMark := none,
     uafDtor := false, uafUser := false, wrongThread := false, out := none }
 
 end MuduoVerif.Loop
